@@ -313,8 +313,22 @@ def run(ctx, prog, res):
                     continue
                 (sd, so), (ed, eo) = parts["start"], parts["end"]
                 same_date = ed == sd
-                parsed = "(" in so and so != "::default()"
-                inherits = parsed and so in eo
+                # by call site, not by spelling: the end's offset inherits when the very call that parsed the
+                # start's offset is in its backward slice (two parses written alike are two call sites)
+                def comp(op, i):
+                    pl = lib.operand_place(op)
+                    if pl is None or pl["p"]:
+                        return None
+                    defs = [n for _, n in fn.defs_of(pl["l"]) if n["k"] == "assign" and n["rv"]["k"] == "agg" and n["rv"].get("ak") == "tuple" and len(n["rv"]["ops"]) == 2]
+                    return defs[0]["rv"]["ops"][i] if len(defs) == 1 else None
+                so_op, eo_op = comp(ops["start"], 1), comp(ops["end"], 1)
+                if so_op is None or eo_op is None:
+                    r8.fail("C05.R8:ANCHOR2:%s" % fid.split("::")[-1], "ANCHOR: the (date, offset) pairs of a MonthdayRange::Date are not built as plain tuples in %s" % fid, lib.where_of(fn, st))
+                    continue
+                is_parse = lambda c: c.get("k") == "call" and (flow.call_name(c) or "").endswith("build_date_offset")
+                so_calls = [c for c in flow.deep_origin_calls(fn, so_op, depth=8) if is_parse(c)]
+                eo_calls = [c for c in flow.deep_origin_calls(fn, eo_op, depth=8) if is_parse(c)]
+                inherits = any(c is d for c in so_calls for d in eo_calls)
                 r8.check(same_date or not inherits, {"fn": fid.split("::")[-1], "end_is_the_start": same_date, "end_offset": eo[:120]}, "C05.R8:%s" % fid.split("::")[-1],
                          "%s gives the end of a dated range the start's offset although the end is a date of its own (%s): `Dec 25 -2 days-Dec 31` ends on Dec 29" % (fid, ed[:120]), lib.where_of(fn, st))
     r8.floor(2)
